@@ -6,6 +6,8 @@ package main
 
 import (
 	"fmt"
+	"go/constant"
+	"go/token"
 	"go/types"
 	"strings"
 
@@ -30,14 +32,15 @@ func siteOf(in ssa.Instruction) Site {
 // PathQ is a reachability query over the CFG of Fn, descending into the
 // bodies of "new" (non-frozen) helper functions as if they were inlined.
 type PathQ struct {
-	c       *Ctx
-	Fn      *ssa.Function
-	CutIn   func(ssa.Instruction) bool              // passing this instruction ends the path
-	CutEdge func(b *ssa.BasicBlock, succ int) bool // deleted edges (static literal)
-	CutLit  LitMatch                               // deleted edges: those whose (path-resolved) literal matches
-	Facts   *Facts                                 // optional path-sensitivity on repeated branch conditions
-	NoBack  bool                                   // do not follow back edges (target dominates source)
-	base    []ssa.CallInstruction                  // frames active when the query started
+	c         *Ctx
+	Fn        *ssa.Function
+	CutIn     func(ssa.Instruction) bool             // passing this instruction ends the path
+	CutEdge   func(b *ssa.BasicBlock, succ int) bool // deleted edges (static literal)
+	CutLit    LitMatch                               // deleted edges: those whose (path-resolved) literal matches
+	Facts     *Facts                                 // optional path-sensitivity on repeated branch conditions
+	NoBack    bool                                   // do not follow back edges (target dominates source)
+	base      []ssa.CallInstruction                  // frames active when the query started
+	noDescend bool                                   // stay inside Fn (do not enter new helpers)
 }
 
 type pstate struct {
@@ -111,6 +114,23 @@ func pushMemo(m *memoNode, k ssa.Value, idx int, v ssa.Value, fr *frameNode) *me
 	return nn
 }
 
+// dropMemo removes the decision recorded for (k, idx).
+func dropMemo(m *memoNode, k ssa.Value, idx int) *memoNode {
+	var keep []*memoNode
+	for n := m; n != nil; n = n.up {
+		if !(n.key == k && n.idx == idx) {
+			keep = append(keep, n)
+		}
+	}
+	var out *memoNode
+	for i := len(keep) - 1; i >= 0; i-- {
+		n := keep[i]
+		out = &memoNode{key: n.key, idx: n.idx, val: n.val, up: out, fr: n.fr}
+		out.sign = out.upSig() + memoEntrySig(n.key, n.idx, n.val)
+	}
+	return out
+}
+
 func (m *memoNode) upSig() string {
 	if m.up == nil {
 		return ""
@@ -166,6 +186,70 @@ func (q *PathQ) resolveBool(v ssa.Value, memo *memoNode) (ssa.Value, bool, *fram
 	return v, neg, ctx
 }
 
+// resolveMemoVal: the value a helper call returned on this path (ok=false when v is not such a result).
+func (q *PathQ) resolveMemoVal(v ssa.Value, memo *memoNode) (ssa.Value, bool) {
+	found := false
+	for i := 0; i < 8; i++ {
+		if _, isMI := v.(*ssa.MakeInterface); isMI && found {
+			return v, true // keep the conversion: it makes the interface non-nil
+		}
+		v = q.c.resolve(v)
+		switch x := v.(type) {
+		case *ssa.Call:
+			if w, ok := memo.lookup(x, 0); ok {
+				v, found = w, true
+				continue
+			}
+		case *ssa.Extract:
+			if call, isCall := x.Tuple.(*ssa.Call); isCall {
+				if w, ok := memo.lookup(call, x.Index); ok {
+					v, found = w, true
+					continue
+				}
+			}
+		case *ssa.Phi:
+			if w, ok := memo.lookup(x, 0); ok {
+				v, found = w, true
+				continue
+			}
+		}
+		break
+	}
+	return v, found
+}
+
+// nilTestedPhi: a phi of nilable type with a direct `== nil` / `!= nil` use.
+func nilTestedPhi(ph *ssa.Phi) bool {
+	if !nilable(ph.Type()) {
+		return false
+	}
+	seen := map[*ssa.Phi]bool{}
+	var rec func(p *ssa.Phi) bool
+	rec = func(p *ssa.Phi) bool {
+		if seen[p] {
+			return false
+		}
+		seen[p] = true
+		refs := p.Referrers()
+		if refs == nil {
+			return false
+		}
+		for _, r := range *refs {
+			switch x := r.(type) {
+			case *ssa.BinOp:
+				if (x.Op == token.EQL || x.Op == token.NEQ) && (isConstNil(x.X) || isConstNil(x.Y)) {
+					return true
+				}
+			case *ssa.Phi:
+				if rec(x) {
+					return true
+				}
+			}
+		}
+		return false
+	}
+	return rec(ph)
+}
 func chainOf(s *frameNode) []ssa.CallInstruction {
 	var chain []ssa.CallInstruction
 	for n := s; n != nil; n = n.up {
@@ -177,15 +261,68 @@ func chainOf(s *frameNode) []ssa.CallInstruction {
 // dynLit: the literal witnessed by taking successor succ of b on this path.
 // decided: the branch outcome is fixed by the path (constant); feasible tells whether succ is the taken one.
 func (q *PathQ) dynLit(b *ssa.BasicBlock, succ int, memo *memoNode) (lit Lit, hasLit bool, decided bool, feasible bool) {
+	lit, hasLit, decided, feasible, _ = q.dynLitK(b, succ, memo)
+	return
+}
+
+// nilKnow: taking the edge establishes that value v is (not) nil.
+type nilKnow struct {
+	v     ssa.Value
+	isNil bool
+}
+
+var nilYes = ssa.NewConst(constant.MakeBool(true), types.Typ[types.Bool])
+var nilNo = ssa.NewConst(constant.MakeBool(false), types.Typ[types.Bool])
+
+func (q *PathQ) dynLitK(b *ssa.BasicBlock, succ int, memo *memoNode) (lit Lit, hasLit bool, decided bool, feasible bool, nk *nilKnow) {
 	iff, ok := b.Instrs[len(b.Instrs)-1].(*ssa.If)
 	if !ok {
-		return Lit{}, false, false, true
+		return Lit{}, false, false, true, nil
 	}
 	v, neg, ctx := q.resolveBool(iff.Cond, memo)
+	// comparison of a helper's result (or of a remembered pointer variable) with nil:
+	// decided when the path fixed the value
+	if bo, ok := v.(*ssa.BinOp); ok && (bo.Op == token.EQL || bo.Op == token.NEQ) && ctx == nil {
+		var x ssa.Value
+		if isConstNil(bo.Y) {
+			x = bo.X
+		} else if isConstNil(bo.X) {
+			x = bo.Y
+		}
+		if x != nil {
+			w, viaMemo := q.resolveMemoVal(x, memo)
+			isNil, known := false, false
+			if viaMemo {
+				switch y := w.(type) {
+				case *ssa.Const:
+					isNil, known = y.Value == nil, y.Value == nil
+				case *ssa.MakeInterface:
+					known = true // an interface holding a typed value is never nil
+				case *ssa.Alloc, *ssa.MakeMap, *ssa.MakeSlice, *ssa.MakeClosure, *ssa.Function:
+					known = true
+				}
+			}
+			if !known {
+				// did an earlier branch of this path test the very same SSA value?
+				if kv, ok := memo.lookup(w, -1); ok {
+					isNil, known = kv == ssa.Value(nilYes), true
+				}
+			}
+			if known {
+				val := (isNil == (bo.Op == token.EQL)) != neg
+				return Lit{}, false, true, (succ == 0) == val, nil
+			}
+			if _, isC := w.(*ssa.Const); !isC && q.c.nilTests(w) >= 2 {
+				// worth remembering only when the same value is tested again somewhere
+				vTruth := (succ == 0) != neg
+				nk = &nilKnow{w, vTruth == (bo.Op == token.EQL)}
+			}
+		}
+	}
 	if k, isC := v.(*ssa.Const); isC && k.Value != nil {
 		if bt, ok := k.Type().Underlying().(*types.Basic); ok && bt.Info()&types.IsBoolean != 0 {
 			val := constantBool(k) != neg
-			return Lit{}, false, true, (succ == 0) == val
+			return Lit{}, false, true, (succ == 0) == val, nil
 		}
 	}
 	var l Lit
@@ -203,7 +340,7 @@ func (q *PathQ) dynLit(b *ssa.BasicBlock, succ int, memo *memoNode) (lit Lit, ha
 	if succ == 1 {
 		l = l.Neg()
 	}
-	return l, true, false, true
+	return l, true, false, true, nk
 }
 
 // Reach searches from site `from` (exclusive of instructions before from.I)
@@ -249,8 +386,9 @@ func (q *PathQ) Reach(from Site, startFact uint64, target func(ssa.Instruction) 
 		it := work[len(work)-1]
 		work = work[:len(work)-1]
 		steps++
-		if steps > 200000 {
-			break
+		if steps > 400000 {
+			// search bound exceeded: report reachable (never silently "unreachable")
+			return []string{"search bound exceeded in " + c.fname(q.Fn)}, true
 		}
 		if it.i == 0 {
 			st := pstate{it.b, it.fact, idOf(it.stack), it.memo.sig()}
@@ -276,11 +414,16 @@ func (q *PathQ) Reach(from Site, startFact uint64, target func(ssa.Instruction) 
 				stop = true
 				break
 			}
+			if val, isVal := in.(ssa.Value); isVal && memo != nil {
+				if _, has := memo.lookup(val, -1); has {
+					memo = dropMemo(memo, val, -1) // the value is computed anew: what was known about it is gone
+				}
+			}
 			// descend into a new helper (its instructions then act on the facts one by one)
 			if ci, ok := in.(ssa.CallInstruction); ok {
 				if _, isDefer := in.(*ssa.Defer); !isDefer {
 					cal := ci.Common().StaticCallee()
-					if cal != nil && c.isNew(cal) && depthOf(it.stack) < 4 && !onStack(it.stack, cal) {
+					if cal != nil && !q.noDescend && c.isNew(cal) && depthOf(it.stack) < 4 && !onStack(it.stack, cal) {
 						fr := &frameNode{call: ci, ret: Site{it.b, i + 1}, up: it.stack}
 						fr.id = fmt.Sprintf("%s/%p", idOf(it.stack), ci)
 						work = append(work, &item{cal.Blocks[0], 0, fact, fr, memo, it})
@@ -314,7 +457,7 @@ func (q *PathQ) Reach(from Site, startFact uint64, target func(ssa.Instruction) 
 			if q.CutEdge != nil && q.CutEdge(it.b, si) {
 				continue
 			}
-			lit, hasLit, decided, feasible := q.dynLit(it.b, si, memo)
+			lit, hasLit, decided, feasible, nk := q.dynLitK(it.b, si, memo)
 			if decided && !feasible {
 				continue
 			}
@@ -337,9 +480,21 @@ func (q *PathQ) Reach(from Site, startFact uint64, target func(ssa.Instruction) 
 				if !ok {
 					continue
 				}
+				if hasLit {
+					if nf, ok = q.Facts.lit(lit, nf); !ok {
+						continue
+					}
+				}
 			}
 			// boolean phis at the successor take the value of this edge
 			nm := memo
+			if nk != nil {
+				if nk.isNil {
+					nm = pushMemo(nm, nk.v, -1, nilYes, nil)
+				} else {
+					nm = pushMemo(nm, nk.v, -1, nilNo, nil)
+				}
+			}
 			pi := -1
 			for k, p := range s.Preds {
 				if p == it.b {
@@ -353,6 +508,9 @@ func (q *PathQ) Reach(from Site, startFact uint64, target func(ssa.Instruction) 
 						break
 					}
 					if bt, ok := ph.Type().Underlying().(*types.Basic); ok && bt.Info()&types.IsBoolean != 0 {
+						nm = pushMemo(nm, ph, 0, ph.Edges[pi], nil)
+					} else if nilTestedPhi(ph) {
+						// a pointer/interface variable that is later compared with nil: remember which value it took
 						nm = pushMemo(nm, ph, 0, ph.Edges[pi], nil)
 					}
 				}
@@ -625,4 +783,55 @@ func isLoopHeader(b *ssa.BasicBlock) bool {
 		}
 	}
 	return false
+}
+
+// nilTests: in how many `== nil` / `!= nil` comparisons of its function the
+// value v can be the compared operand, directly or through phis.
+func (c *Ctx) nilTests(v ssa.Value) int {
+	in, ok := v.(ssa.Instruction)
+	if !ok || in.Parent() == nil {
+		return 0
+	}
+	fn := in.Parent()
+	if c.nilTestMemo == nil {
+		c.nilTestMemo = map[*ssa.Function]map[ssa.Value]int{}
+	}
+	m, ok := c.nilTestMemo[fn]
+	if !ok {
+		m = map[ssa.Value]int{}
+		for _, b := range fn.Blocks {
+			for _, in := range b.Instrs {
+				bo, ok := in.(*ssa.BinOp)
+				if !ok || (bo.Op != token.EQL && bo.Op != token.NEQ) {
+					continue
+				}
+				var x ssa.Value
+				if isConstNil(bo.Y) {
+					x = bo.X
+				} else if isConstNil(bo.X) {
+					x = bo.Y
+				} else {
+					continue
+				}
+				seen := map[ssa.Value]bool{}
+				var rec func(v ssa.Value)
+				rec = func(v ssa.Value) {
+					v = c.resolve(v)
+					if seen[v] {
+						return
+					}
+					seen[v] = true
+					if p, ok := v.(*ssa.Phi); ok {
+						for _, e := range p.Edges {
+							rec(e)
+						}
+					}
+					m[v]++
+				}
+				rec(x)
+			}
+		}
+		c.nilTestMemo[fn] = m
+	}
+	return m[v]
 }
